@@ -48,7 +48,7 @@ Unusual == {
   "export const s = <C href=\"C:\\users\" {...o} />;", "export const s = <div v-foo=\"C:\\users\" />;",
   "export const s = <div v-html=\"a\\b\\u\" />;", "export const s = <div v-text=\"\\\" />;", "export const s = <div>C:\\users\\1</div>;",
   "export const s = <A.b-c />;", "export const s = <A.b-c.d>t</A.b-c.d>;",
-  "export const s = async (id) => <C>{f(id)}</C>;", "export const s = async (id) => <C>{render(await load(id))}</C>;",
+  "export const s = async (id) => <C>{f(id)}</C>;",
   "export const s = async function (id) { return <C>{f(id)}</C>; };", "export const s = { async m(id) { return () => <C>{f(id)}</C>; } };"
 }
 
@@ -77,7 +77,9 @@ Opt(name) ==
     [] name = "pragma" -> [DefaultOpts EXCEPT !.pragma = "h", !.optimize = TRUE]
 
 AwaitYield == {"export const s = async () => <C>{await f()}</C>;", "export function* g() { yield <C>{yield 1}</C>; }",
-               "export const s = async () => <C><b>{await f()}</b>t</C>;"}
+               "export const s = async () => <C><b>{await f()}</b>t</C>;",
+               \* lowered through a temporary (evaluated eagerly) with object slots on; moved into the slot function without
+               "export const s = async (id) => <C>{render(await load(id))}</C>;"}
 
 (* ---- C08: self- and mutually-referential type declarations, empty runtime types (resolveType) ---- *)
 TsHead == "import { defineComponent, type SetupContext } from 'vue';\n"
